@@ -31,6 +31,7 @@ type Mutex struct {
 	waiter int
 }
 
+//go:norace
 func (m *Mutex) obj(s *simrt.Sched) string {
 	if m.name == "" {
 		m.name = s.ObjName("mutex")
@@ -38,6 +39,7 @@ func (m *Mutex) obj(s *simrt.Sched) string {
 	return m.name
 }
 
+//go:norace
 func (m *Mutex) Lock() {
 	s := simrt.Active
 	if s == nil {
@@ -56,6 +58,12 @@ func (m *Mutex) Lock() {
 	}
 }
 
+// VerifName is the scheduler's name of this mutex ("" before its first use under the simulator).
+//
+//go:norace
+func (m *Mutex) VerifName() string { return m.name }
+
+//go:norace
 func (m *Mutex) TryLock() bool {
 	s := simrt.Active
 	if s == nil {
@@ -69,6 +77,7 @@ func (m *Mutex) TryLock() bool {
 	return true
 }
 
+//go:norace
 func (m *Mutex) Unlock() {
 	if m.held || m.name != "" {
 		// a mutex that has been used under the simulator never touches the real one again (a killed
@@ -84,10 +93,42 @@ type RWMutex struct {
 	real    sync.RWMutex
 	writer  bool
 	readers int
-	wwait   int // writers parked (writer preference, as the runtime implements)
+	wwait   int     // writers parked
+	wseq    []int64 // arrival numbers of the parked writers
+	arrival int64
 	name    string
 }
 
+// A reader that called RLock before a writer called Lock is not held back by that writer (in the
+// runtime it already holds the read lock); readers arriving after a waiting writer queue behind it.
+//
+//go:norace
+func (m *RWMutex) readerMayGo(arrived int64) bool {
+	if m.writer {
+		return false
+	}
+	for _, w := range m.wseq {
+		if w < arrived {
+			return false
+		}
+	}
+	return true
+}
+
+//go:norace
+func (m *RWMutex) dropWriter(arrived int64) {
+	for i, w := range m.wseq {
+		if w == arrived {
+			for k := i; k+1 < len(m.wseq); k++ {
+				m.wseq[k] = m.wseq[k+1]
+			}
+			m.wseq = m.wseq[:len(m.wseq)-1]
+			return
+		}
+	}
+}
+
+//go:norace
 func (m *RWMutex) obj(s *simrt.Sched) string {
 	if m.name == "" {
 		m.name = s.ObjName("rwmutex")
@@ -95,6 +136,7 @@ func (m *RWMutex) obj(s *simrt.Sched) string {
 	return m.name
 }
 
+//go:norace
 func (m *RWMutex) Lock() {
 	s := simrt.Active
 	if s == nil {
@@ -103,9 +145,13 @@ func (m *RWMutex) Lock() {
 	}
 	name := m.obj(s)
 	m.wwait++
+	m.arrival++
+	me := m.arrival
+	m.wseq = append(m.wseq, me)
 	s.Park(&simrt.Op{Kind: "lock", Obj: name, Enabled: func() bool { return !m.writer && m.readers == 0 }, OnRelease: func() {
 		m.writer = true
 		m.wwait--
+		m.dropWriter(me)
 	}})
 	raceAcquire(unsafe.Pointer(m))
 	if LockOrder != nil {
@@ -115,6 +161,7 @@ func (m *RWMutex) Lock() {
 	}
 }
 
+//go:norace
 func (m *RWMutex) Unlock() {
 	if m.writer || m.name != "" {
 		raceRelease(unsafe.Pointer(m))
@@ -124,6 +171,7 @@ func (m *RWMutex) Unlock() {
 	m.real.Unlock()
 }
 
+//go:norace
 func (m *RWMutex) RLock() {
 	s := simrt.Active
 	if s == nil {
@@ -131,12 +179,15 @@ func (m *RWMutex) RLock() {
 		return
 	}
 	name := m.obj(s)
-	s.Park(&simrt.Op{Kind: "rlock", Obj: name, Enabled: func() bool { return !m.writer && m.wwait == 0 }, OnRelease: func() {
+	m.arrival++
+	me := m.arrival
+	s.Park(&simrt.Op{Kind: "rlock", Obj: name, Enabled: func() bool { return m.readerMayGo(me) }, OnRelease: func() {
 		m.readers++
 	}})
 	raceAcquire(unsafe.Pointer(m))
 }
 
+//go:norace
 func (m *RWMutex) RUnlock() {
 	if m.readers > 0 || m.name != "" {
 		raceReleaseMerge(unsafe.Pointer(m))
@@ -148,11 +199,14 @@ func (m *RWMutex) RUnlock() {
 	m.real.RUnlock()
 }
 
+//go:norace
 func (m *RWMutex) RLocker() Locker { return (*rlocker)(m) }
 
 type rlocker RWMutex
 
+//go:norace
 func (r *rlocker) Lock()   { (*RWMutex)(r).RLock() }
+//go:norace
 func (r *rlocker) Unlock() { (*RWMutex)(r).RUnlock() }
 
 // Cond is sync.Cond over a simsync Locker.
@@ -167,6 +221,7 @@ type condWaiter struct{ signaled bool }
 
 func NewCond(l Locker) *Cond { return &Cond{L: l, real: sync.NewCond(l)} }
 
+//go:norace
 func (c *Cond) Wait() {
 	s := simrt.Active
 	if s == nil {
@@ -183,6 +238,7 @@ func (c *Cond) Wait() {
 	c.L.Lock()
 }
 
+//go:norace
 func (c *Cond) Signal() {
 	if len(c.waiters) > 0 {
 		c.waiters[0].signaled = true
@@ -193,6 +249,7 @@ func (c *Cond) Signal() {
 	}
 }
 
+//go:norace
 func (c *Cond) Broadcast() {
 	for _, w := range c.waiters {
 		w.signaled = true
